@@ -919,7 +919,11 @@ class MyPyAstVisitor:
             if initializer is not None:
                 default_value, default_is_none = self._get_parameter_type_and_default_value(initializer, function_id)
                 if arg_type is None and (default_is_none or default_value is not None):
-                    arg_type = mypy_expression_to_sds_type(initializer)
+                    try:
+                        arg_type = mypy_expression_to_sds_type(initializer)
+                    except TypeError:
+                        # The type of this default value cannot be inferred
+                        arg_type = None
 
             arg_name = argument.variable.name
             arg_kind = get_argument_kind(argument)
